@@ -4241,8 +4241,11 @@ impl BytecodeVM {
                 let method_val = self.get_reg(method);
                 let key_val = self.get_reg(key);
 
-                // Convert key to string for property name
-                let method_name = interp.to_js_string(key_val);
+                // A computed key is a symbol or is converted to a string
+                let computed_key = match key_val {
+                    JsValue::Symbol(_) => key_val.clone(),
+                    other => JsValue::String(interp.to_js_string(other)),
+                };
 
                 // Store __super__ and __super_target__ on method for super access
                 if let JsValue::Object(method_obj) = &method_val {
@@ -4273,7 +4276,7 @@ impl BytecodeVM {
                 }
 
                 // Use from_value to handle numeric string keys correctly (e.g., "2" -> Index(2))
-                let prop_key = interp.property_key_from_value(&JsValue::String(method_name));
+                let prop_key = interp.property_key_from_value(&computed_key);
 
                 if is_static {
                     // Add to class constructor directly
@@ -4315,8 +4318,11 @@ impl BytecodeVM {
                 let setter_val = self.get_reg(setter);
                 let key_val = self.get_reg(key);
 
-                // Convert key to string for accessor name
-                let accessor_name = interp.to_js_string(key_val);
+                // A computed key is a symbol or is converted to a string
+                let computed_key = match key_val {
+                    JsValue::Symbol(_) => key_val.clone(),
+                    other => JsValue::String(interp.to_js_string(other)),
+                };
 
                 // Extract function objects (undefined means keep existing)
                 let new_getter = if let JsValue::Object(g) = getter_val {
@@ -4346,7 +4352,7 @@ impl BytecodeVM {
 
                 // Get existing accessor property if any
                 // Use from_value to handle numeric string keys correctly (e.g., "2" -> Index(2))
-                let prop_key = interp.property_key_from_value(&JsValue::String(accessor_name));
+                let prop_key = interp.property_key_from_value(&computed_key);
                 let (existing_getter, existing_setter) = {
                     let target_ref = target.borrow();
                     if let Some(prop) = target_ref.properties.get(&prop_key) {
